@@ -34,7 +34,15 @@
 #include "tsgGridWavelet.hpp"
 #include "tsgTPLWrappers.hpp"
 
+#include <mutex>
+
 namespace TasGrid{
+
+namespace{
+// inter_matrix is a transient cache that is (re)built inside const methods,
+// the lock keeps concurrent const calls from building it twice or reading it while it is being built
+std::mutex inter_matrix_lock;
+}
 
 template<bool iomode> void GridWavelet::write(std::ostream &os) const{
     if (iomode == mode_ascii){ os << std::scientific; os.precision(17); }
@@ -130,7 +138,10 @@ void GridWavelet::getQuadratureWeights(double weights[]) const{
     for(int i=0; i<num_points; i++){
         weights[i] = evalIntegral(work.getIndex(i));
     }
-    if (inter_matrix.getNumRows() != num_points) buildInterpolationMatrix();
+    {
+        std::lock_guard<std::mutex> lock(inter_matrix_lock);
+        if (inter_matrix.getNumRows() != num_points) buildInterpolationMatrix();
+    }
     inter_matrix.invertTransposed(acceleration, weights);
 }
 void GridWavelet::getInterpolationWeights(const double x[], double weights[]) const{
@@ -140,7 +151,10 @@ void GridWavelet::getInterpolationWeights(const double x[], double weights[]) co
     for(int i=0; i<num_points; i++){
         weights[i] = evalBasis(work.getIndex(i), x);
     }
-    if (inter_matrix.getNumRows() != num_points) buildInterpolationMatrix();
+    {
+        std::lock_guard<std::mutex> lock(inter_matrix_lock);
+        if (inter_matrix.getNumRows() != num_points) buildInterpolationMatrix();
+    }
     inter_matrix.invertTransposed(acceleration, weights);
 }
 void GridWavelet::getDifferentiationWeights(const double x[], double weights[]) const {
@@ -150,7 +164,10 @@ void GridWavelet::getDifferentiationWeights(const double x[], double weights[]) 
     for (int i=0; i<num_points; i++) {
         evalDiffBasis(work.getIndex(i), x, &(weights[i * num_dimensions]));
     }
-    if (inter_matrix.getNumRows() != num_points) buildInterpolationMatrix();
+    {
+        std::lock_guard<std::mutex> lock(inter_matrix_lock);
+        if (inter_matrix.getNumRows() != num_points) buildInterpolationMatrix();
+    }
     // Solve the linear wavelet system for each direction/partial derivative and re-index.
     std::vector<double> local_weights(num_points);
     for (int d=0; d<num_dimensions; d++) {
